@@ -1523,6 +1523,15 @@ public:
     if (!is_bottom()) {
       if (b1 == b2) {
 	assign_bool_var(lhs, b1, false);
+      } else if (lhs == cond || lhs == b1 || lhs == b2) {
+	// The operands are read again after lhs has been written, so
+	// if lhs is one of them the result goes through a fresh variable.
+	auto &vfac = const_cast<varname_t *>(&(lhs.name()))->get_var_factory();
+	variable_t tmp(vfac.get(), lhs.get_type());
+	select_bool(tmp, cond, b1, b2);
+	assign_bool_var(lhs, tmp, false);
+	this->operator-=(tmp);
+	return;
       } else {
 	forget_bool_in_implications(lhs);
 	m_product.select_bool(lhs, cond, b1, b2);
